@@ -173,6 +173,11 @@ func (t *txnSource) mkCalls(desc string) []eng.Call {
 		case "compactexpiry":
 			out = append(out, eng.Call{Kind: "compactexpiry", Expiry: &reftable.LogExpirationConfig{Time: 1003}})
 		default:
+			if strings.HasPrefix(k, "cr") && len(k) == 4 {
+				// cr<first><last>: compaction of an explicit contiguous range
+				out = append(out, eng.Call{Kind: "compactrange", First: int(k[2] - '0'), Last: int(k[3] - '0')})
+				continue
+			}
 			out = append(out, eng.Call{Kind: k})
 		}
 	}
@@ -258,7 +263,7 @@ func (e *engRunner) sweepTripleX(family string, idx int, gcfg gen.Cfg, rec eng.R
 	return n
 }
 
-var pctKinds = []string{"add", "add", "add", "addbig", "addmulti", "compactall", "autocompact", "clean", "reopen", "close,open", "fresh", "read", "addempty", "addbad", "compactexpiry"}
+var pctKinds = []string{"add", "add", "add", "addbig", "addmulti", "compactall", "autocompact", "clean", "reopen", "close,open", "fresh", "read", "addempty", "addbad", "compactexpiry", "cr01", "cr12", "cr23"}
 
 // randomScenario builds a PCT/uniform scenario.
 func (e *engRunner) randomScenario(family string, idx int, seed int64) {
@@ -365,6 +370,7 @@ func RunC04(c *Ctx) {
 			idx++
 		}
 	}
+	idx = e.explicitRanges(idx, false)
 	n := c.N(2500, 150000)
 	for i := 0; i < n; i++ {
 		if c.Mine(idx) {
@@ -374,6 +380,27 @@ func RunC04(c *Ctx) {
 	}
 	r.Count("scenario_cases", idx)
 	sampleEng(c, e)
+}
+
+// explicitRanges: concurrent compactions of explicitly chosen disjoint / overlapping /
+// nested ranges (reachable through the compactRange export wrapper only), with adds.
+func (e *engRunner) explicitRanges(idx int, every bool) int {
+	if !haveCompactRange {
+		e.c.Rep.Note("export wrapper for compactRange unavailable: explicit-range compaction scenarios skipped")
+		return idx
+	}
+	pairs := [][2]string{{"cr23", "cr01"}, {"cr23", "cr01,add"}, {"cr12", "cr01"}, {"cr01", "cr23,add"}, {"cr23", "add,cr01,add"},
+		{"cr13", "cr01"}, {"cr34", "cr02,add"}, {"cr22", "cr01"}, {"cr12", "cr34,add"}, {"cr24", "cr01,cr00,add"}}
+	recs := []eng.Recipe{{0, 0, 0, 0}, {0, 0, 0, 0, 0}, {30, 0, 0, 10, 0}}
+	for pi, pr := range pairs {
+		for ri, rec := range recs {
+			if e.c.Mine(idx) {
+				e.sweepPair("explicit-range-compactions", idx, engCfg(pi+ri), rec, pr[0], pr[1], "", true, every)
+			}
+			idx++
+		}
+	}
+	return idx
 }
 
 func sampleEng(c *Ctx, e *engRunner) {
